@@ -416,7 +416,7 @@ fn part_a(maxlen: usize, acc: &mut Acc, worker: usize, nworkers: usize) {
 // ---------------------------------------------------------------------------------------------
 // part B: adversarial operands x every operand position x every follower
 // ---------------------------------------------------------------------------------------------
-const EXPR_CORPUS: [&str; 73] = [
+const EXPR_CORPUS: [&str; 82] = [
     "then",
     "map",
     "and_then",
@@ -492,6 +492,16 @@ const EXPR_CORPUS: [&str; 73] = [
     "move |n| n >> 1",
     "|n| n",
     "|n| n > 1 || n < 0",
+    // control-flow expressions whose condition / scrutinee / iterator is punctuation-free up to an operator look-alike
+    "if a <= b { x } else { y }",
+    "if a { b } else { c }",
+    "if let Some(v) = a { v } else { b }",
+    "match a <= b { true => x, false => y }",
+    "match a { _ => b }",
+    "for i in 0..n { g(i) }",
+    "while a <= b { h() }",
+    "if a => b { x } else { y }",
+    "loop { break a <= b }",
 ];
 const TYPE_CORPUS: [&str; 8] = [
     "Vec<Vec<i32>>",
